@@ -104,7 +104,7 @@ def run(ctx):
     Sn = Sym(prog, f_new)
     agg = [s for b in f_new.blocks for s in b["stmts"] if s["rhs"]["rv"] == "agg" and (s["rhs"].get("adt") or "").endswith("Language")]
     v = Sn.val(agg[0]["rhs"]["ops"][0]) if agg else ""
-    ctx.check(v == "(p1 BitOr (p2 Shl c:%d))" % shift, "LANG-FIT", "Language::new composes lang | (sublang << SUBLANG_SHIFT)", v,
+    ctx.check(v in ("(p1 BitOr (p2 Shl c:%d))" % shift, "((p2 Shl c:%d) BitOr p1)" % shift), "LANG-FIT", "Language::new composes lang | (sublang << SUBLANG_SHIFT)", v,
               "Language::new builds the code as %s" % v, f_new.loc(), fn=f_new.name)
 
     ctx.rule("LANG-CODE", "Language::from_code stores its argument unchanged on every path (or recomposes it from exactly `code & LANG_MASK` and `code >> SUBLANG_SHIFT`), "
